@@ -496,7 +496,7 @@ def skip_param_attrs(p):
 
 ICMP = {'eq':'==','ne':'!=','ugt':'>','uge':'>=','ult':'<','ule':'<=','sgt':'>','sge':'>=','slt':'<','sle':'<='}
 
-def emit_function(g, f, out, resumable=False, yield_filter=None):
+def emit_function(g, f, out, resumable=False, yield_filter=None, stubbed=False):
     fg = FuncGen(g)
     allocas = set()
     def yields(cty, addr):
@@ -756,7 +756,9 @@ def emit_function(g, f, out, resumable=False, yield_filter=None):
             else:
                 raise SyntaxError('unsupported instruction: ' + ins)
     params = ', '.join('%s %s' % (g.ctype(t), fg.local(n)) for t, n, bv in f.params) or 'void'
-    sig = '%s%s %s(%s)' % ('static ' if f.internal else '', g.ctype(f.ret), cid(f.name), params)
+    # stubbed: the body is emitted as NAME__real, every call keeps going to NAME, which the harness defines (contract stub /
+    # forwarding wrapper); the prototype of NAME is emitted by translate()
+    sig = '%s%s %s%s(%s)' % ('static ' if f.internal and not stubbed else '', g.ctype(f.ret), cid(f.name), '__real' if stubbed else '', params)
     seen = set(); dl = []
     for t, n in decls:
         if n in seen: continue
@@ -864,7 +866,7 @@ typedef unsigned char u1;
 #endif
 '''
 
-def translate(src, resumable=(), yield_filter=None):
+def translate(src, resumable=(), yield_filter=None, stubs=()):
     """LLVM-14 textual IR (typed pointers) -> C text; functions whose C name matches one of the regexes in
     `resumable` additionally get a resumable rendering NAME__ctx/__start/__step/__result (see emit_function)"""
     m = parse_module(src)
@@ -872,7 +874,7 @@ def translate(src, resumable=(), yield_filter=None):
     outl = []
     def pr(x): outl.append(x)
     for tn in list(m.named): g.struct_name(NamedTy(tn))
-    out_funcs = []; protos = []
+    out_funcs = []; protos = []; stubbed_names = []
     gl = []
     fg = FuncGen(g)
     gdecl = []
@@ -901,8 +903,12 @@ def translate(src, resumable=(), yield_filter=None):
         # formatting code (functions taking a std::ostream, e.g. delta_time::print / operator<<) is dropped, see DESIGN.md 3.6
         if 'class.std::basic_ostream' in m.funcs[nm].text.split('{\n', 1)[0]: continue
         res = any(re.fullmatch(r, cid(nm)) for r in resumable)
-        sig = emit_function(g, m.funcs[nm], out_funcs, resumable=res, yield_filter=yield_filter)
+        stb = any(re.search(r, nm) for r in stubs)
+        sig = emit_function(g, m.funcs[nm], out_funcs, resumable=res, yield_filter=yield_filter, stubbed=stb)
         protos.append(sig + ';')
+        if stb:
+            protos.append(sig.replace('__real(', '(', 1) + ';')
+            stubbed_names.append(cid(nm))
     pr(PRELUDE)
     pr('#define bcmp memcmp')
     for a, t in m.aliases.items(): pr('#define %s %s' % (cid(a), cid(t)))
@@ -916,7 +922,7 @@ def translate(src, resumable=(), yield_filter=None):
         pr('void vf_global_ctors(void) { %s }' % ' '.join('%s();' % cid(c) for c in m.ctors))
     else:
         pr('void vf_global_ctors(void) {}')
-    info = {'functions': [cid(n) for n in m.forder], 'globals': len(m.gorder)}
+    info = {'functions': [cid(n) for n in m.forder], 'globals': len(m.gorder), 'stubbed': stubbed_names}
     return '\n'.join(outl) + '\n', info
 
 LIBC = ('memcpy','memmove','memset','memcmp','strlen','bcmp','abort')
